@@ -1,3 +1,8 @@
 #!/bin/sh
-# pin the statement files AND the Spec files that give them their meaning; run deliberately after reviewing a change
-cd "$(dirname "$0")/../coq" && sha256sum Properties/*.v Spec/*.v > ../statements.lock
+# Pins (1) the statement files and the Spec files byte for byte, and (2) the STATEMENT HASH (tools/stmt_hash.py: text
+# without comments and proof scripts) of every Model/ and Proofs/ file, because pinned theorems mention definitions that
+# live there (view_ok, is_pow2, run_sound, items, ordered, ...): redefining one of them would change what a theorem
+# says without touching Properties/ or Spec/.  coq/gen/*.v is regenerated from the source on every run and is not
+# pinned.  Run deliberately after reviewing a change.
+cd "$(dirname "$0")/../coq" && { sha256sum Properties/*.v Spec/*.v; python3 ../tools/stmt_hash.py Model/*.v Proofs/*.v; } > ../statements.lock
+wc -l ../statements.lock
